@@ -191,7 +191,7 @@ func H_C03_history() {
 				expectReject = true
 			case 4: // remove one PDR (first or last of the session's list) and its FAR
 				id := 1 + vChoose("remove_which", 2)
-				ies = append(ies, ie.NewRemovePDR(ie.NewPDRID(uint16(id))), ie.NewRemoveFAR(ie.NewFARID(uint32(id))))
+				ies = append(ies, ie.NewRemovePDR(ie.NewPDRID(uint16(id))), ie.NewRemoveFAR(ie.NewFARID(uint32(10+id))))
 			}
 			seq++
 			e.vSend(message.NewSessionModificationRequest(0, 0, seids[k], seq, 0, ies...))
@@ -382,7 +382,7 @@ func H_C03_wide() {
 	}
 	var ies []*ie.IE
 	if when == 1 {
-		np := vPDRSpec{uplink: false, id: 3, prec: 50, ue: [4]byte{10, 250, 0, 5}, farID: 2, qerIDs: p[1].qerIDs, sdf: bad}
+		np := vPDRSpec{uplink: false, id: 3, prec: 50, ue: [4]byte{10, 250, 0, 5}, farID: 12, qerIDs: p[1].qerIDs, sdf: bad}
 		ies = append(ies, np.create())
 	} else {
 		up := p[1]
